@@ -187,10 +187,13 @@ def run(chk):
     progs = [(s, "edge-matrix") for s in edge_matrix()]
     if not chk.thorough:
         # the quick tier samples the operator x operand matrix but always keeps the out-of-range literal and array-size programs
-        keep = [p for p in progs if "main() -> void { echo(" in p[0] and "x =" not in p[0] or "2147483648" in p[0] or "4294967296" in p[0] or "final int n" in p[0]]
+        # ... and every division and modulo by -1 and by 0 (the operand pairs on which machine arithmetic traps)
+        trap = lambda t: ("echo(x % y)" in t or "echo(x / y)" in t) and any(m in t for m in ("y = (0 - 1);", "y = (0L - 1L);", "y = 0;", "y = 0L;"))
+        keep = [p for p in progs if "main() -> void { echo(" in p[0] and "x =" not in p[0] or "2147483648" in p[0] or "4294967296" in p[0] or "final int n" in p[0]
+                or trap(p[0])]
         rest = [p for p in progs if p not in keep]
         rng.shuffle(rest)
-        progs = keep + rest[:max(0, 700 - len(keep))]
+        progs = keep + rest[:max(0, 760 - len(keep))]
     for _ in range(600 if chk.thorough else 120):
         g = proggen.Gen(rng, quantum=rng.random() < 0.3, edge=True, tracked=rng.random() < 0.2)
         progs.append((g.program(), "typed-edge"))
